@@ -17,7 +17,15 @@ PROP = dict(
         "mapfn_outside_returns_nearest + mapfn_nearest_search_eq_scan + mapfn_lookup_tree_sound (the pruned search over the "
         "tree newTri2dLookup builds returns a triangle at the smallest distance over ALL triangles, for every sound bound; "
         "instance of Prune.Forest.search_eq_foldl) + mapfn_nearest_point_closest (nearest point of the SOLID triangle): the driver recomputes the smallest "
-        "distance by a linear scan in Q; atlas cover: atlas_covers_every_triangle_once / atlas_recursion_partitions (+ charts_partition)"
+        "distance by a linear scan in Q; mapfn_none_means_outside / mapfn_outside_nearest_point_of_atlas close the chain (no containing triangle => "
+        "outside every triangle => the interpolated point is the nearest point of the whole triangulation); atlas cover: "
+        "atlas_covers_every_triangle_once / atlas_recursion_partitions (+ charts_partition); pack: atlas_every_chart_gets_one_cell "
+        "(the model side never lacks a cell for charts of positive area); ext S: extend_boundary_moves_only_ears (nothing but ear "
+        "apexes may differ between the map before and after ExtendBoundaryUVs), extend_boundary_ear_moves_away + "
+        "extend_boundary_origin_side (a moved apex stays strictly on its side of the opposite edge, is not closer to it, moved by "
+        "<= maxDist; for counter-clockwise AND clockwise maps around the origin), extend_boundary_commutes_with_isometries (mirrored / "
+        "rotated maps are in the function's domain), uvValid_sound on the result; ext F: extendBoundary (the model those theorems "
+        "are about) at Float must EQUAL the real result bit for bit"
     ),
     rule=(
         "generated manifolds: icospheres, tori, boxes, grid boxes, marching-cubes genus-1/2 frames and random blobs, "
@@ -34,7 +42,11 @@ PROP = dict(
         "needles, cones and spindles (stretch ~ height/(2 radius) from 3 to 200, area share often < 1/512) as separate "
         "components or grown out of a face of a sheet / patch / icosphere / box, and long ringed cones (deep recursion), with "
         "the covered triangle set of the returned MeshUVMap compared with the mesh; MapFn of real atlases at points off the "
-        "chart borders, outside the unit square and far away; distinct = distinct operation lines"
+        "chart borders, outside the unit square and far away; ExtendBoundaryUVs on library parameterisations of discs with ears "
+        "(both solvers, three boundary kinds, four weightings) sent through a linear map of the UV plane - identity, V flip, U flip, "
+        "transposition, quarter turns, Pythagorean and arbitrary rotations with or without a reflection, rotation + axis scaling, "
+        "applied to the solution or to the boundary map before the solve (user-supplied clockwise boundary); half of the maps "
+        "reverse the orientation; maxDist from 0.01 to 1; distinct = distinct operation lines"
     ),
     trusted=[
         "regenerated, not hand-written: lean/M3d/Gen/Kernels.lean (Go->Lean translator harness/hlib/go2lean, run on the current "
@@ -56,6 +68,14 @@ PROP = dict(
         "theorem floater_history_keeps_boundary is about that heap); model2d.GroupBounders is NOT modelled: the nearest "
         "theorems hold for every order of the triangles (every tree newTri2dLookup can build), the faithful comparison "
         "(near T) feeds the order GroupBounders produced or a random one through the hook VerifNewTri2dLookup",
+        "regenerated too: Coord.Norm, Coord.Dist, Coord.Normalize, Coord.ProjectOut, Segment.Closest / Dist / Length (2-D and 3-D) "
+        "and NewSegment - everything ExtendBoundaryUVs computes with - are tied to norm2 / distE2 / normalize2 / projectOut2 / "
+        "segClosest2 / segDist2 / segLen2 / newSegment3 / segDist3 / segLen3 / ratio2 / ratio3 / pushOut of M3d/Model/ParamExt.lean; "
+        "the loop itself (CoordMap, Mesh.Find, boundarySequence) is hand-modelled and compared bit for bit (ext F); math.Sqrt is an "
+        "uninterpreted function with the hypothesis SqrtSpec (non-negative square root; true of Real.sqrt) in the theorems",
+        "ExtendBoundaryUVs: that two DIFFERENT extended ears do not overlap each other is not proved (each lies on the outer side of "
+        "its own chord of the convex boundary polygon); uvValid is run in exact arithmetic on every result; ext S allows 1e-12 "
+        "relative slack on 'not closer to the opposite edge' and on the displacement bound (float rounding of the stored point)",
         "Rect.SDF / genericSDF use sqrt: the "
         "model compares squared distances (s -> s|s| is strictly increasing), exact on the dyadic layouts of near T / near M; "
         "near N (real atlases, float UVs) allows 1e-9 relative slack on squared distances: validation",
@@ -71,6 +91,9 @@ PROP = dict(
         "resolution of the iterative solver (default MSE tolerance 1e-16): discs with a scale ratio >= 1e3 inside one chart or "
         "many rings between boundary and interior are only fed to BuildAutomaticUVMap, which (since fix 6c979e5) detects "
         "flipped / zero-area UV triangles and splits such discs",
+        "ExtendBoundaryUVs: the boundary map is a convex polygon with the origin on the inner side of both boundary edges at every "
+        "ear apex ('centered around the origin', the documented precondition; either sense of rotation) and the map is a valid "
+        "embedding before the call (checked on every generated input, reported as a generator fault)",
     ],
     level_text=(
         "Theorems (Lean 4, every policy/oracle, every ordered field): chart growth never loses or duplicates a triangle "
@@ -84,9 +107,14 @@ PROP = dict(
         "atlas recursion (split or append, any stretch oracle) covers every triangle exactly once; MapFn's pruned "
         "nearest-triangle search equals the linear scan for every sound bound, the Rect.SDF bound of the tree "
         "newTri2dLookup builds is sound for every query, so a query outside every UV triangle gets a triangle at the "
-        "smallest distance and its closest boundary point. Tie: the real code is run on generated manifolds and compared with the models (exact for growth, "
+        "smallest distance and its closest boundary point - the nearest point of the whole triangulation, since 'no containing triangle' "
+        "means a negative barycentric coordinate in every triangle; every chart of positive area gets exactly one quad-tree cell; "
+        "ExtendBoundaryUVs writes nothing but ear apexes, moves an apex straight away from its opposite edge by at most maxDist "
+        "(orientation kept, ear less flat) for clockwise and counter-clockwise maps around the origin alike, and commutes with every "
+        "rotation / reflection about the origin. Tie: the real code is run on generated manifolds and compared with the models (exact for growth, "
         "system assembly, packing, MapFn on dyadic data inside and outside the triangles, the tri2dLookup search), "
-        "histories of solves and atlas covers are compared with what the theorems demand, and the proved deciders are run on every real chart and "
+        "histories of solves, atlas covers and the maps before / after ExtendBoundaryUVs (on mirrored and rotated parameterisations too; "
+        "its model also bit for bit) are compared with what the theorems demand, and the proved deciders are run on every real chart and "
         "every real UV layout in exact arithmetic."
     ),
     level_note=(
